@@ -127,4 +127,12 @@ META = {
          "~ |Normal(avg_dur, std_dur)|, categories ~ Categorical(categories, weights); parameters measured with mean / std of the same sample or "
          "exactly those supplied.",
    note="Not decided: convergence of empirical statistics (statistical); NumPy's generators are assumed to implement the tagged laws."),
+ "C19": dict(
+   technique="contract-based deductive verification of corpus_from_reference (both argument forms) and false_neg_shuffle over the Continuum "
+             "contracts, every random draw unconstrained within its support; the other perturbations by a bounded stand-in",
+   level="Proved for every draw: corpus_from_reference returns a fresh continuum whose annotators are exactly the requested names (or "
+         "annotator_0..k-1), each carrying exactly the reference annotator's units, bounds copied, categories those of the tool; "
+         "false_neg_shuffle only removes units and leaves no annotator empty. Bounded (labelled): shift, false positives, category shuffle, "
+         "splits, flag combinations, include_ref, magnitude 0.",
+   note="Assumed: RNG support model, sortedcontainers; genericity hypothesis for the counting clauses."),
 }
